@@ -240,3 +240,11 @@ _targets_c12_core = targets
 
 def targets():      # noqa: F811
     return _targets_c12_core() + [target_fit_identifiers()]
+
+
+_targets_before_purity = targets
+
+
+def targets():      # noqa: F811
+    from . import purity
+    return _targets_before_purity() + [purity.target_modules(["analysis/fitting"], "fitting module keeps no state between calls")]
